@@ -23,17 +23,18 @@ def main():
     ap.add_argument('--tier', default='quick')
     ap.add_argument('--props', default=None)
     ap.add_argument('--seed', default='0')
+    ap.add_argument('--dir', default='equiv', help="'equiv' (behaviour-preserving refactors) or 'irrelevant' (behaviour changes the property does not constrain)")
     a = ap.parse_args()
-    rpath = V / 'equiv' / 'RESULTS.json'
+    rpath = V / a.dir / 'RESULTS.json'
     results = json.loads(rpath.read_text()) if rpath.is_file() else {}
-    for d in sorted((V / 'equiv').iterdir()):
+    for d in sorted((V / a.dir).iterdir()):
         if not (d / 'patch.diff').is_file():
             continue
         if a.only and d.name not in a.only:
             continue
         meta = json.loads((d / 'meta.json').read_text())
         props = a.props.split(',') if a.props else [meta['property']] + meta.get('also_run', [])
-        wt = pathlib.Path('/tmp') / ('eqvwt_' + d.name)
+        wt = pathlib.Path('/tmp') / (a.dir[:3] + 'wt_' + d.name)
         sh(['git', '-C', '/repo', 'worktree', 'remove', '--force', str(wt)])
         sh(['git', '-C', '/repo', 'worktree', 'add', '--detach', str(wt), 'HEAD'])
         try:
@@ -64,7 +65,7 @@ def main():
             continue
         cs = '; '.join(f'{p}: exit {c["exit"]}' for p, c in e['checks'].items())
         lines.append(f'| {k} | {e["property"]} | {"yes" if e["quiet"] else "NO"} | {cs} |')
-    (V / 'equiv' / 'RESULTS.md').write_text('\n'.join(lines) + '\n')
+    (V / a.dir / 'RESULTS.md').write_text('\n'.join(lines) + '\n')
 
 if __name__ == '__main__':
     main()
